@@ -8,7 +8,7 @@ import (
 // collide; equality is by id.
 type verifKey struct{ id, h uint32 }
 
-func verifEq(a, b any) bool { return a.(verifKey).id == b.(verifKey).id }
+func verifEq(a, b any) bool  { return a.(verifKey).id == b.(verifKey).id }
 func verifHash(k any) uint32 { return k.(verifKey).h }
 
 type verifModel struct {
